@@ -12,6 +12,7 @@ import VaxisModel.Spec.Tokenize
   suspend <cnv> <clv> <row> <col> <style>\t bytes    model = tokens of `suspendW`; verdict: everything restored
   resume             \t bytes    model = tokens of `resumeW`; verdict: mode state = after start-up
   close <cnv> <clv> <closed> <row> <col> <style> \t bytes   model = tokens of `closeW`; verdict: everything restored
+  closesuspended     \t bytes|hang   Close after Suspend without Resume
   closeby <how> <cnv> <clv> \t bytes    Close triggered by signal / panic: no model comparison, verdict restored
 -/
 namespace VaxisModel.Driver.C04
@@ -109,6 +110,7 @@ def step (s : St) (line : String) : St × String :=
       | some itoks => ({ s with t := ModeTerm.run s.t itoks }, "-\t-\t-")
       | none => (s, bad3)
   | ["suspend", cnv, clv, row, col, sty] =>
+      if impl = "hang" then (s, "-\thang\tFAIL Suspend never returns") else
       match lex impl with
       | some itoks =>
         let cn : CursorState := { row := row.toInt?.getD 0, col := col.toInt?.getD 0, style := sty.toNat?.getD 0, visible := b cnv }
@@ -127,6 +129,7 @@ def step (s : St) (line : String) : St × String :=
         ({ s with w := { w with wire := [] }, t := t }, s!"{c.1}\t{c.2}\t{v}")
       | none => (s, bad3)
   | ["close", cnv, clv, closed, row, col, sty] =>
+      if impl = "hang" then (s, "-\thang\tFAIL Close never returns") else
       match lex impl with
       | some itoks =>
         let cn : CursorState := { row := row.toInt?.getD 0, col := col.toInt?.getD 0, style := sty.toNat?.getD 0, visible := b cnv }
@@ -135,7 +138,18 @@ def step (s : St) (line : String) : St × String :=
         let t := ModeTerm.run s.t itoks
         ({ s with w := { w with wire := [] }, t := t }, s!"{c.1}\t{c.2}\t{restoredVerdict s.t0 t}")
       | none => (s, bad3)
+  | ["closesuspended"] =>
+      -- Close while suspended (no Resume): must return, and writes nothing more
+      if impl = "hang" then (s, "toks=0\thang\tFAIL Close while suspended never returns") else
+      match lex impl with
+      | some itoks =>
+        let w := closeW s.env false { s.w with wire := [] }
+        let c := canon w.wire itoks
+        let t := ModeTerm.run s.t itoks
+        ({ s with w := { w with wire := [] }, t := t }, s!"{c.1}\t{c.2}\t{restoredVerdict s.t0 t}")
+      | none => (s, bad3)
   | ["closeby", _, _, _] =>
+      if impl = "hang" then (s, "-\thang\tFAIL Close triggered from the input goroutine never completes") else
       match lex impl with
       | some itoks =>
         let t := ModeTerm.run s.t itoks
